@@ -100,6 +100,11 @@ fn cur() -> Option<(Arc<Sched>, usize)> {
     CUR.with(|c| c.borrow().clone())
 }
 
+/// number of context switches so far in the simulation this thread belongs to (0 outside)
+pub fn switches_now() -> u64 {
+    cur().map(|(s, _)| s.switches()).unwrap_or(0)
+}
+
 pub fn in_sim() -> bool {
     CUR.with(|c| c.borrow().is_some())
 }
@@ -343,6 +348,10 @@ impl Sched {
         self.inner.lock().unwrap().stats.clone()
     }
 
+    pub fn switches(&self) -> u64 {
+        self.inner.lock().unwrap().stats.switches
+    }
+
     pub fn trace(&self) -> Vec<u32> {
         self.inner.lock().unwrap().trace.clone()
     }
@@ -410,6 +419,11 @@ fn join_detached() {
 // ------------------------------------------------------------------ hooks (installed once per process)
 
 fn hook_sched_point(site: &'static str) {
+    if NO_YIELD.with(|n| n.get()) {
+        // oracle reads of the shared lexer: not part of the system under test, no decision here
+        // (a busy lock still goes through hook_blocked and yields)
+        return;
+    }
     if let Some((s, me)) = cur() {
         s.yield_point(me, site, false);
     }
@@ -432,6 +446,7 @@ thread_local! {
     pub static FUEL_FAULT: std::cell::Cell<Option<u32>> = const { std::cell::Cell::new(None) };
     pub static FUEL_FAULT_FIRED: std::cell::Cell<u32> = const { std::cell::Cell::new(0) };
     pub static TRANSITIONS: std::cell::Cell<u64> = const { std::cell::Cell::new(0) };
+    pub static NO_YIELD: std::cell::Cell<bool> = const { std::cell::Cell::new(false) };
 }
 
 fn hook_buggify(site: &'static str) -> bool {
